@@ -226,7 +226,7 @@ impl Check for C13 {
         "C13"
     }
     fn plan(&self, tier: Tier) -> Plan {
-        let mut p = Plan::new(tier.pick(1500, 60_000), tier.pick(25.0, 420.0));
+        let mut p = Plan::new(tier.pick(60_000, 6_000_000), tier.pick(25.0, 360.0));
         p.mandatory = 2;
         p
     }
